@@ -224,6 +224,18 @@ pub fn valid_objects(w: &World, sid1: u128) -> Vec<Valid> {
             b: ty(&poll(WReq::SyncRequest { session_id: sid2, graph_id: g, max_bytes: 1000, commands: vec![a(0)] }), &[]),
         },
         Valid {
+            kind: "poll-request-wide",
+            family: Family::Type,
+            a: ty(&poll(WReq::SyncRequest { session_id: sid1, graph_id: g, max_bytes: 0, commands: leaf_addrs(w, 0, rtlib::rt::PEER_HEAD_MAX + 1) }), &[]),
+            b: ty(&poll(WReq::SyncRequest { session_id: sid2, graph_id: g, max_bytes: 9, commands: leaf_addrs(w, 1, rtlib::rt::PEER_HEAD_MAX + 1) }), &[]),
+        },
+        Valid {
+            kind: "subscribe-wide",
+            family: Family::Type,
+            a: ty(&WType::Subscribe { remain_open: 1, max_bytes: 10, commands: leaf_addrs(w, 0, rtlib::rt::PEER_HEAD_MAX + 1), graph_id: g }, &[]),
+            b: ty(&WType::Subscribe { remain_open: 2, max_bytes: 20, commands: leaf_addrs(w, 2, rtlib::rt::PEER_HEAD_MAX + 1), graph_id: g }, &[]),
+        },
+        Valid {
             kind: "poll-request-empty",
             family: Family::Type,
             a: ty(&poll(WReq::SyncRequest { session_id: sid1, graph_id: g, max_bytes: 0, commands: vec![] }), &[]),
@@ -360,6 +372,8 @@ struct Tally {
     missing_response_seen: u64,
     malformed_seen: u64,
     responder_replies: u64,
+    /// accumulate sequences that ended with a full PeerCache (the step that must be refused silently)
+    full_cache_offers: u64,
 }
 
 impl Tally {
@@ -404,6 +418,7 @@ impl Tally {
         self.missing_response_seen += o.missing_response_seen;
         self.malformed_seen += o.malformed_seen;
         self.responder_replies += o.responder_replies;
+        self.full_cache_offers += o.full_cache_offers;
         self
     }
     fn note(&mut self, target: &str, class: &str, input: &[u8], nontrivial: bool) {
@@ -783,6 +798,140 @@ fn eval_input(ctx: &mut Ctx, inp: &Input, t: &mut Tally) {
     }
 }
 
+
+/// The responder's graph: init, two branches of two commands (nodes 1..=4, used by the valid
+/// objects) and `COMMAND_SAMPLE_MAX + 2` further one-command branches off init (nodes 5..), so
+/// that it has more concurrent heads than a PeerCache (PEER_HEAD_MAX) and a request sample
+/// (COMMAND_SAMPLE_MAX) can hold.
+fn c18_world() -> World {
+    use rtlib::dag::{Kind, Node, Op};
+    let mut dag = fan(2, 2);
+    for _ in 0..crate::sample_max() + 2 {
+        dag.nodes.push(Node { kind: Kind::Basic(0), parents: vec![0], rank: 0x40, prog: vec![Op::Append] });
+    }
+    World::new(dag, "fan2x2+leaves".into())
+}
+
+/// Addresses of `n` of the extra concurrent heads, starting at leaf `from`.
+fn leaf_addrs(w: &World, from: usize, n: usize) -> Vec<Address> {
+    (5 + from..w.n()).take(n).map(|i| addr(w.ids[i], w.max_cuts[i])).collect()
+}
+
+/// Capacity crossings: address lists naming up to capacity + 1 concurrent commands the graph
+/// really holds, delivered in one message or accumulated into the same PeerCache across
+/// messages, through receive -> poll, subscribe -> update_heads, the requester's own sample
+/// building, and over-long response / index lists.
+fn eval_wide(ctx: &mut Ctx, t: &mut Tally) {
+    use rtlib::rt::{PEER_HEAD_MAX, COMMAND_RESPONSE_MAX};
+    let w = ctx.w.clone();
+    let g = w.graph;
+    let smax = crate::sample_max();
+    let mut counts: Vec<usize> = vec![PEER_HEAD_MAX - 1, PEER_HEAD_MAX, PEER_HEAD_MAX + 1, PEER_HEAD_MAX + 2, smax - 1, smax, smax + 1];
+    counts.sort();
+    counts.dedup();
+    let request = |sid: u128, addrs: Vec<Address>| enc(&WType::Poll { request: WReq::SyncRequest { session_id: sid, graph_id: g, max_bytes: 0, commands: addrs } });
+    let subscribe = |addrs: Vec<Address>| enc(&WType::Subscribe { remain_open: 5, max_bytes: 100, commands: addrs, graph_id: g });
+    // (a) one message, fresh cache (eval_decode builds a fresh PeerCache per message)
+    for &n in &counts {
+        for from in [0usize, 1] {
+            eval_decode(ctx, &format!("wide:request{n}"), &request(7, leaf_addrs(&w, from, n)), t);
+            eval_decode(ctx, &format!("wide:subscribe{n}"), &subscribe(leaf_addrs(&w, from, n)), t);
+        }
+    }
+    // (b) accumulated into ONE PeerCache across messages: first m heads, then n further ones
+    for m in [PEER_HEAD_MAX - 1, PEER_HEAD_MAX] {
+        for n in [1usize, 2, PEER_HEAD_MAX] {
+            for kind in ["poll,poll", "subscribe,subscribe", "poll,subscribe", "subscribe,poll"] {
+                let name = format!("wide:accumulate {kind} {m}+{n}");
+                let msgs = [leaf_addrs(&w, 0, m), leaf_addrs(&w, m, n)];
+                let kinds: Vec<&str> = kind.split(',').collect();
+                let r = mcx::catch(|| {
+                    let mut cache = PeerCache::new();
+                    let mut classes = Vec::new();
+                    for (k, addrs) in msgs.iter().enumerate() {
+                        let bytes = if kinds[k] == "poll" { request(9 + k as u128, addrs.clone()) } else { subscribe(addrs.clone()) };
+                        match SyncIncoming::decode(&bytes) {
+                            Ok(SyncIncoming::Poll(p)) => {
+                                let mut r = SyncResponder::new();
+                                let _ = r.receive(p);
+                                let mut polls = 0;
+                                while r.ready() && polls < 8 {
+                                    polls += 1;
+                                    match r.poll(&mut ctx.out, ctx.b.client.provider(), &mut cache, &mut ctx.b.buffers.traversal) {
+                                        Ok(_) => classes.push("msg".to_string()),
+                                        Err(e) => classes.push(format!("err:{}", sync_err_class(&e))),
+                                    }
+                                }
+                            }
+                            Ok(SyncIncoming::Subscribe(s)) => {
+                                let res = ctx.b.client.update_heads(s.graph_id(), s.heads().iter(), &mut cache, &mut ctx.b.buffers.traversal.primary);
+                                classes.push(if res.is_ok() { "heads-ok".into() } else { "heads-err".into() });
+                            }
+                            Ok(_) => classes.push("other".into()),
+                            Err(e) => classes.push(format!("decode-err:{}", sync_err_class(&e))),
+                        }
+                    }
+                    (cache.heads().len(), classes.join("/"))
+                });
+                let key = request(9, msgs[0].clone());
+                match r {
+                    Ok((len, class)) => {
+                        t.note("accumulate", &format!("{kind}:{}entries", len.min(PEER_HEAD_MAX + 1)), &[key, name.clone().into_bytes()].concat(), true);
+                        let _ = class;
+                        if len > PEER_HEAD_MAX {
+                            t.fault("peer-cache-overfull (accumulate)".into(), name.as_bytes(), format!("{len} cache entries after {name}"), &name);
+                        }
+                        if len == PEER_HEAD_MAX {
+                            t.full_cache_offers += 1;
+                        }
+                    }
+                    Err(msg) => {
+                        t.note("accumulate", "PANIC", name.as_bytes(), true);
+                        t.fault(format!("panic (accumulate) at {}", mcx::last_panic_location()), name.as_bytes(), format!("panicked: {msg} while handling {name}"), &name);
+                    }
+                }
+            }
+        }
+    }
+    // (c) the requester's own sample building on a graph with more heads than the sample holds,
+    // with a full PeerCache
+    let r = mcx::catch(|| {
+        let mut cache = PeerCache::new();
+        for a in leaf_addrs(&w, 0, PEER_HEAD_MAX) {
+            let storage = rtlib::rt::StorageProvider::get_storage(ctx.b.client.provider(), g).map_err(|e| format!("{e}"))?;
+            cache.add_command(&*storage, a, &mut ctx.b.buffers.traversal.primary).map_err(|e| format!("{e}"))?;
+        }
+        let rng = CtrRng::new(ctx.seed, RNG_STREAM);
+        let mut rq = SyncRequester::new(g, &rng);
+        let (_, sent) = rq.poll(&mut ctx.out, ctx.b.client.provider(), &cache.session_heads(), &mut ctx.b.buffers.traversal.primary).map_err(|e| format!("poll: {e}"))?;
+        let n = rq.subscribe(&mut ctx.out, ctx.b.client.provider(), &cache.session_heads(), 1, 1, &mut ctx.b.buffers.traversal.primary).map_err(|e| format!("subscribe: {e}"))?;
+        Ok::<_, String>((sent, n))
+    });
+    match r {
+        Ok(Ok((sent, _))) => t.note("requester-sample", &format!("sample{}", if sent >= smax { "=max" } else { "<max" }), b"wide", true),
+        Ok(Err(e)) => t.note("requester-sample", &format!("err:{e}"), b"wide", true),
+        Err(msg) => t.fault(format!("panic (requester sample) at {}", mcx::last_panic_location()), b"wide", format!("building the request sample on a graph with {} heads panicked: {msg}", w.n() - 3), "wide"),
+    }
+    // (d) over-long lists for the other bounded vectors: response metas, missing indexes
+    let metas: Vec<WMeta> = (0..COMMAND_RESPONSE_MAX + 1).map(|k| meta_of(&w, 5 + k % (w.n() - 5)).0).collect();
+    for n in [COMMAND_RESPONSE_MAX - 1, COMMAND_RESPONSE_MAX, COMMAND_RESPONSE_MAX + 1] {
+        let mut payload = Vec::new();
+        for k in 0..n {
+            payload.extend(meta_of(&w, 5 + k % (w.n() - 5)).1);
+        }
+        let resp = WResp::SyncResponse { session_id: ctx.sid1, response_index: 0, commands: metas[..n].to_vec() };
+        let mut bytes = enc(&resp);
+        bytes.extend(&payload);
+        eval_receive(ctx, RState::Waiting0, &format!("wide:response{n}"), &bytes, t);
+        let mut push = enc(&WType::Push { message: resp, graph_id: g });
+        push.extend(&payload);
+        eval_decode(ctx, &format!("wide:push{n}"), &push, t);
+    }
+    let rm = if COMMAND_RESPONSE_MAX == 5 { 1 } else { 100 };
+    for n in [rm - 1, rm, rm + 1] {
+        eval_decode(ctx, &format!("wide:request-missing{n}"), &enc(&WType::Poll { request: WReq::RequestMissing { session_id: 3, indexes: (0..n as u64).collect() } }), t);
+    }
+}
 
 /// One step of a requester history.
 #[derive(Clone)]
@@ -1198,7 +1347,7 @@ fn self_check(ctx: &mut Ctx, valids: &[Valid]) -> u64 {
 pub fn run(args: &Args) {
     let flavour = args.extra.get("flavour").cloned().unwrap_or_else(|| "P".into());
     crate::check_flavour(&flavour);
-    let w = Arc::new(World::new(fan(2, 2), "fan2x2".into()));
+    let w = Arc::new(c18_world());
     let sid1 = drawn_session_id(args.seed, &w);
     let valids = valid_objects(&w, sid1);
     if let Some(f) = &args.replay {
@@ -1271,6 +1420,8 @@ pub fn run(args: &Args) {
         .reduce(Tally::default, Tally::merge);
     let mut tally = tally;
     sequence_model(&mut ctx0, &mut tally);
+    eval_wide(&mut ctx0, &mut tally);
+    rep.count("offers_to_a_full_peer_cache", tally.full_cache_offers);
     // every requester state must be reachable the way the protocol rules say; a requester that
     // does not follow them is reported (once), not treated as a harness fault
     for st in RSTATES {
@@ -1328,6 +1479,7 @@ pub fn run(args: &Args) {
         rep.require_nonzero("missing_response_answers");
         rep.require_nonzero("malformed_response_answers");
         rep.require_nonzero("responder_replies");
+        rep.require_nonzero("offers_to_a_full_peer_cache");
         rep.require_nonzero("history_responses_rejected_out_of_sequence");
         rep.require_nonzero("history_resume_requests");
         rep.require_nonzero("history_responses_accepted_after_resume");
